@@ -38,6 +38,15 @@ func within(got, want *big.Rat, n int) bool {
 	return d.Cmp(new(big.Rat).Mul(halfUlp, big.NewRat(int64(n), 1))) <= 0
 }
 
+func sortedKeys(m map[string][]byte) []string {
+	ks := make([]string, 0, len(m))
+	for k := range m {
+		ks = append(ks, k)
+	}
+	sort.Strings(ks)
+	return ks
+}
+
 func denomsOf(cs ...Coins) []string {
 	set := map[string]bool{}
 	for _, c := range cs {
@@ -91,18 +100,23 @@ type stats struct {
 // must be refused in this state.
 func CheckState(w *World, m *Model, illegal []Sym, st *stats, vac map[string]int64, rebuild func() *World) (fs []Finding) {
 	bad := func(a, f string, args ...interface{}) { fs = append(fs, Finding{a, fmt.Sprintf(f, args...)}) }
-	handles := map[string]*accum.AccumulatorObject{}
+	// a slice, not a map: the order in which findings are reported must not depend on map iteration
+	type namedHandle struct {
+		n string
+		h *accum.AccumulatorObject
+	}
 	fh, err := accum.GetAccumulator(w.store, accName)
 	if err != nil {
 		bad("accumulator.readable", "GetAccumulator: %v", err)
 		return
 	}
-	handles["store"] = fh
+	handles := []namedHandle{{"store", fh}}
 	if w.long != nil {
-		handles["long-lived handle"] = w.long
+		handles = append(handles, namedHandle{"long-lived handle", w.long})
 	}
 	wantShares := m.TotalShares()
-	for hn, h := range handles {
+	for _, nh := range handles {
+		hn, h := nh.n, nh.h
 		if got := decToRat(h.GetTotalShares()); got.Cmp(wantShares) != 0 {
 			bad("total_shares", "%s: total shares %s, sum of position shares %s", hn, got.FloatString(18), wantShares.FloatString(18))
 		}
@@ -129,6 +143,18 @@ func CheckState(w *World, m *Model, illegal []Sym, st *stats, vac map[string]int
 		}
 		if got := decToRat(rec.NumShares); got.Cmp(mp.Shares) != 0 {
 			bad("position_shares", "position %s holds %s shares, reference %s", n, got.FloatString(18), mp.Shares.FloatString(18))
+		}
+		// the panicking accessor returns the same record
+		var mrec accum.Record
+		if p := tryf(func() { mrec = h.MustGetPosition(n) }); p != "" {
+			bad("position_present", "MustGetPosition(%s) panicked for an existing position: %s", n, p)
+		} else {
+			same := false
+			if p := tryf(func() {
+				same = mrec.NumShares.Equal(rec.NumShares) && mrec.AccumValuePerShare.String() == rec.AccumValuePerShare.String() && mrec.UnclaimedRewardsTotal.String() == rec.UnclaimedRewardsTotal.String()
+			}); p != "" || !same {
+				bad("position_present", "MustGetPosition(%s) returns a record that differs from GetPosition's (%s)", n, p)
+			}
 		}
 		// what the position can claim now
 		var claimable Coins
@@ -175,12 +201,12 @@ func CheckState(w *World, m *Model, illegal []Sym, st *stats, vac map[string]int
 		}
 		after := storeMap(c)
 		pk := string(accum.FormatPositionPrefixKey(accName, n))
-		for k, v := range before {
-			if k != pk && !bytes.Equal(after[k], v) {
+		for _, k := range sortedKeys(before) {
+			if k != pk && !bytes.Equal(after[k], before[k]) {
 				bad("claim_isolated", "ClaimRewards(%s) changed store entry %q", n, k)
 			}
 		}
-		for k := range after {
+		for _, k := range sortedKeys(after) {
 			if _, ok := before[k]; !ok {
 				bad("claim_isolated", "ClaimRewards(%s) created store entry %q", n, k)
 			}
